@@ -163,6 +163,32 @@ func hostileSweep() []func(c *Cfg) string {
 		v := v
 		add("serial", func(c *Cfg) { c.Serial = v })
 	}
+	// the empty string (and a blank) in every string slot of the extension schemas
+	for _, v := range []string{"", " "} {
+		v := v
+		add("empty cps", func(c *Cfg) {
+			c.Exts = []Ext{{Kind: "cp", HasContent: true, Crit: -1, Pols: []Policy{{Oid: "1.2.3.4", HasQuals: true, Quals: []Qualifier{{Cps: v}}}}}}
+		})
+		add("empty policy oid", func(c *Cfg) { c.Exts = []Ext{{Kind: "cp", HasContent: true, Crit: -1, Pols: []Policy{{Oid: v}}}} })
+		add("empty ocsp", func(c *Cfg) { c.Exts = []Ext{{Kind: "aia", HasContent: true, Crit: -1, List: []string{v}}} })
+		add("empty eku", func(c *Cfg) { c.Exts = []Ext{{Kind: "eku", HasContent: true, Crit: -1, List: []string{v}}} })
+		add("empty ku flag", func(c *Cfg) { c.Exts = []Ext{{Kind: "ku", HasContent: true, Crit: -1, List: []string{v}}} })
+		add("empty san name", func(c *Cfg) {
+			c.Exts = []Ext{{Kind: "san", HasContent: true, Crit: -1, Names: [][2]string{{"dns", v}, {"mail", v}}}}
+		})
+		add("empty san type", func(c *Cfg) { c.Exts = []Ext{{Kind: "san", HasContent: true, Crit: -1, Names: [][2]string{{v, "x"}}}} })
+		add("empty ski", func(c *Cfg) { c.Exts = []Ext{{Kind: "ski", HasContent: true, Crit: -1, Str: v}} })
+		add("empty custom oid", func(c *Cfg) { c.Exts = []Ext{{Kind: "custom", Oid: v, Raw: "!null", Crit: -1}} })
+		add("empty notice members", func(c *Cfg) {
+			c.Exts = []Ext{{Kind: "cp", HasContent: true, Crit: -1, Pols: []Policy{{Oid: "1.2.3.4", HasQuals: true, Quals: []Qualifier{{Notice: &UserNotice{Org: v, Text: v, HasNums: true}}}}}}}
+		})
+		add("empty admission strings", func(c *Cfg) {
+			c.Exts = []Ext{{Kind: "adm", HasContent: true, Crit: -1, Adm: &Admission{Auth: &[2]string{"dns", v}, List: []Admissions{{Naming: &Naming{Oid: v, Url: v, Text: v},
+				Infos: []ProfInfo{{Items: []string{v}, Oids: []string{v}, RegNum: v, AddInfo: v}}}}}}}
+		})
+		add("empty key algorithm", func(c *Cfg) { c.KeyAlg = v })
+		add("empty signature algorithm", func(c *Cfg) { c.SigAlg = v })
+	}
 	for _, v := range []int64{-1, 2147483648, 9223372036854775807} {
 		v := v
 		add("pathLen", func(c *Cfg) { c.Exts = []Ext{{Kind: "bc", HasContent: true, Crit: -1, HasPl: true, PathLen: v}} })
